@@ -23,8 +23,8 @@ BATCH = 40
 DET = ['emm', 'emm_obj', 'emm_lumped', 'its', 'ck', 'coring', 'coring_obj', 'wt', 'paths', 'sim', 'shift',
        'rename_idx', 'rename_pop', 'unique', 'peq', 'is_ergodic', 'mask', 'eig', 'gauss', 'gauss2d', 'rmean',
        'rownorm', 'mpow', 'swapcols', 'swapcols_f', 'format', 'statetraj', 'peq_big', 'eig_big', 'sim_obj', 'ck_obj',
-       'ck_arr', 'its_arr', 'wt_arr']
-RND = ['mcmc', 'msm_wt', 'msm_tt', 'msm_paths', 'tmat', 'tmat_neg']
+       'ck_arr', 'its_arr', 'wt_arr', 'emm_lumped2']
+RND = ['mcmc', 'msm_wt', 'msm_tt', 'msm_paths', 'tmat', 'tmat_neg', 'msm_wt_lumped', 'msm_tt_lumped']
 
 
 def gen(rng, tier):
@@ -130,6 +130,8 @@ def impl(case):
     present = sorted({v for t in case['trajs'] for v in t})
     f = {v: 50 + (1 if i >= len(present) // 2 else 0) for i, v in enumerate(present)}
     lobj = mh.LumpedStateTraj([np.array([f[v] for v in t]) for t in case['trajs']], [np.array(t) for t in case['trajs']])
+    f2 = {v: 60 + (i % 2) for i, v in enumerate(present)}       # a poor lumping (alternate microstates): negative projection entries are common
+    lobj2 = mh.LumpedStateTraj([np.array([f2[v] for v in t]) for t in case['trajs']], [np.array(t) for t in case['trajs']])
     T, _ = mh.msm.estimate_markov_model([np.array(t) for t in case['trajs']], case['lag'])
     T = np.array(T)
     series = np.array([float(v) * 0.5 for v in case['trajs'][0]])
@@ -146,7 +148,7 @@ def impl(case):
     Tneg[0, int(np.argmax(T[0]))] += 0.05 + T[0].min()
     Tneg[0, int(np.argmin(T[0]))] -= 0.05 + T[0].min()
     Sarr, Farr = np.array(case['S']), np.array(case['F'])
-    shared = {'lagarr': lagarr, 'Tneg': Tneg, 'Sarr': Sarr, 'Farr': Farr,
+    shared = {'lobj2': lobj2, 'lagarr': lagarr, 'Tneg': Tneg, 'Sarr': Sarr, 'Farr': Farr,
               'trajs': trajs, 'arr2': arr2, 'obj': obj, 'lobj': lobj, 'T': T, 'series': series, 'table': table,
               'other': other, 'S': list(case['S']), 'F': list(case['F']), 'Tbig': Tbig, 'table_f': table_f, 'row1': row1,
               'oobj': oobj}
@@ -205,6 +207,9 @@ def impl(case):
         'its_arr': lambda: mh.msm.implied_timescales(obj, lagarr),
         'wt_arr': lambda: mh.md.estimate_waiting_times(trajs, Sarr, Farr),
         'tmat_neg': lambda: mh.utils.datasets.propagate_tmat(Tneg, 40),
+        'msm_wt_lumped': lambda: mh.msm.estimate_waiting_times(trajs=lobj2, lagtime=lag, start=[60], final=[61], steps=200, return_list=True),
+        'msm_tt_lumped': lambda: mh.msm.timescales.estimate_transition_times(trajs=lobj, lagtime=lag, start=[50], final=[51], steps=200),
+        'emm_lumped2': lambda: lobj2.estimate_markov_model(lag),
         'format': lambda: mh.utils.format_state_traj(arr2),
         'statetraj': lambda: [mh.StateTraj(trajs).trajs, mh.StateTraj(arr2).index_trajs, mh.StateTraj(obj) is obj],
         'mcmc': lambda: mh.msm.timescales.propagate_MCMC(trajs, lag, 50),
